@@ -16,7 +16,7 @@ RULE = ('filter ASTs (has / not / six comparisons against bool, number, quantity
         'reference evaluator written from the Haystack filter semantics (DESIGN.md Appendix C): selected rows by identity '
         'and order, cut at limit; result carries version/metadata/columns; source grid unchanged; no exception. Exhaustive: '
         'all filters with <= 3 atoms over a 16-atom alphabet x 8 connective shapes against a grid holding every combination '
-        'of 13 x 13 x 5 tag valuations. Non-trivial = the filter selects a proper non-empty subset, or has >= 3 operands, or '
+        'of 13 x 13 x 6 tag valuations. Non-trivial = the filter selects a proper non-empty subset, or has >= 3 operands, or '
         'contains ->; distinct by (filter text, grid).')
 ASSUMPTIONS = ['row ids are plain strings and a Ref matches the row whose str(id) equals the Ref name (hszinc\'s documented '
                'convention in its tests)', 'Ref values compared with ref literals carry no display name; Ref equality is by name',
@@ -175,7 +175,7 @@ ATOMS = [['has', ['a']], ['not', ['a']], ['cmp', '==', ['a'], ['num', 5.0]], ['c
          ['cmp', '<=', ['a'], ['qty', 5.0, 'W']]]
 A_VALS = ['ABSENT', 'NONE', 'MARKER', ['num', 5.0], ['num', 4.0], ['num', 6.0], ['str', 'x'], ['bool', True], ['num', 1.0],
           ['qty', 5.0, 'kW'], ['num', 0.0], ['bool', False], ['str', '']]
-R_VALS = [['ref', 'id0', None], ['ref', 'id1', None], ['ref', 'nope', None], ['str', 'id0'], 'ABSENT']
+R_VALS = [['ref', 'id0', None], ['ref', 'id1', None], ['ref', 'nope', None], ['str', 'id0'], 'ABSENT', ['ref', '1', None]]
 
 
 def small_scope_rows():
@@ -256,6 +256,7 @@ def strategies(excl):
         for t in reftags:
             c = cand.setdefault(t, [])
             c.extend([['ref', 'id%d' % i, None] for i in range(nrows)] * 2 + [['ref', 'nope', None], ['str', 'id0'], ['num', 0.0],
+                      ['ref', '2', None], ['ref', '1001', None], ['ref', '0', None], ['uri', 'id1'],
                                                                              'ABSENT', 'NONE', 'MARKER'])
         rows = []
         for _ in range(nrows):
